@@ -109,7 +109,8 @@ def token_classes(c):
 
 
 HOSTS = ["example.com", "EXAMPLE.com", "www.lemonde.fr", "a.b.co.uk", "xn--tlrama-bvab.fr", "télérama.fr", "TÉLÉRAMA.FR", "XN--TLRAMA-BVAB.fr", "1.2.3.4",
-         "[::1]", "[2001:db8::a]", "localhost", "bücher.example", "xn--bcher-kva.example", "sub.例え.jp", "a-b.c-d.org"]
+         "[::1]", "[2001:db8::a]", "localhost", "bücher.example", "xn--bcher-kva.example", "sub.例え.jp", "a-b.c-d.org",
+         "bücher.télérama.fr", "пример.рф", "xn--e1afmkfd.рф", "münchen.de", "xn--mnchen-3ya.de"]
 SCHEMES = ["http://", "https://", "", "//", "HTTP://", "HttpS://", "ftp://"]
 PORTS = ["", "", "", ":80", ":443", ":8080", ":08080", ":21", ":65535", ":0"]
 WRAPS = ["", "", "", " ", "\t", "\n", "\x00", "\x7f", "\x85", " \r\n", " ", " "]
